@@ -15,7 +15,10 @@ Mirrors (hand-written; tied by the whole-link correspondence `gc`):
   (`process_eh_frame_relocations`); exported dynamic symbols are loaded (`load_non_hidden_symbols`);
   `PreludeLayoutState::activate`: entry symbol (`load_entry_point`), `--defsym` targets, `-u` symbols;
 * `load_section` → `load_section_relocations` → `process_relocation`: each relocation requests the
-  canonical definition of its symbol (`send_symbol_request`, once per symbol); `load_symbol` of an
+  canonical definition of its symbol (`send_symbol_request`, once per symbol) WHATEVER its type:
+  the request is sent when the symbol has no resolution flags yet, also when the relocation itself
+  adds none (`resolution_flags()` empty: `R_X86_64_NONE` keep-alive relocations, `R_X86_64_TLSLD`,
+  …), which is why `refs` carries no relocation type; `load_symbol` of an
   object queues the section that defines the symbol (a section symbol + ANY addend designates its
   section); `load_symbol` of the synthetic `__start_X/__stop_X` symbols queues every section
   registered under output section X; `non_empty_section_loaded`: when the loaded section has
